@@ -16,7 +16,7 @@ INSERT_KINDS = ("ListInsert", "DictInsert", "CallArg")
 
 from .C17 import clone_def
 
-from .C11 import cursor_sync, key_routing, pair_len
+from .C11 import cursor_sync, equal_keeps, key_routing, pair_len
 
 
 def check(repo: Repo, rep, tier):
@@ -27,11 +27,17 @@ def check(repo: Repo, rep, tier):
     same_type(repo, rep)
     clone_def(repo, rep)
     pair_len(repo, rep)
+    equal_keeps(repo, rep)
     cursor_sync(repo, rep)
     key_routing(repo, rep)
     apply_exh(repo, rep)
     apply_routing(repo, rep)
-    from .C03 import char_units, range_prov
+    from .C03 import char_units, range_prov, import_scope, line_model
+    from .C14 import site_key
+
+    import_scope(repo, rep)
+    line_model(repo, rep)
+    site_key(repo, rep)
 
     range_prov(repo, rep)
     char_units(repo, rep)
